@@ -53,6 +53,7 @@ var tsLayouts = map[string]string{
 	"Kitchen":         "3:04PM",
 	"StampMicro":      "Jan _2 15:04:05.000000",
 	"SpaceNano":       "2006-01-02 15:04:05.000000000 -0700",
+	"RFC1123":         "Mon, 02 Jan 2006 15:04:05 MST", // prints the ABBREVIATION of the zone the instant is expressed in
 }
 
 // what a text in a layout carries (from Timestamp!LayoutInfo, via TLC)
@@ -78,7 +79,7 @@ func tsSetInfos(m map[string]tsInfo) error {
 	sort.Strings(tsIds)
 	// self-check of (layout string, info): a reference instant formatted with the string must
 	// parse back to itself under the info, in its own zone and in UTC
-	ref := time.Date(2021, 11, 7, 23, 58, 59, 123456789, time.FixedZone("", 5*3600+1800))
+	ref := time.Date(2021, 11, 7, 23, 58, 59, 123456789, time.FixedZone("XYZ", 5*3600+1800))
 	for _, id := range tsIds {
 		for _, tm := range []time.Time{ref, ref.UTC()} {
 			if !tsParsesBack(tm.Format(tsLayouts[id]), id, tm) {
@@ -97,6 +98,12 @@ func tsParsesBack(text, id string, tm time.Time) bool {
 	inf := tsInfos[id]
 	p, err := time.Parse(tsLayouts[id], text)
 	if err != nil {
+		// a layout that prints the zone ABBREVIATION prints a numeric offset for a zone without a name,
+		// which package time itself cannot parse back under that layout: nothing to compare then (the
+		// text itself is still compared with package time's rendering by tsExplains)
+		if strings.Contains(tsLayouts[id], "MST") && tm.Format("MST") != "" && strings.ContainsAny(tm.Format("MST")[:1], "+-") {
+			return true
+		}
 		return false
 	}
 	switch inf.Date {
@@ -340,6 +347,8 @@ func (i tsInstant) time() (time.Time, error) {
 		loc = time.FixedZone("", i.Off)
 	case "UTC":
 		loc = time.UTC
+	case "GMT0":
+		loc = time.FixedZone("GMT", 0) // offset zero, yet not UTC
 	case "Local":
 		loc = time.Local
 	default:
@@ -367,6 +376,8 @@ func tsSampleZone(rng *rand.Rand) (*time.Location, tsInstant) {
 	case x < 85:
 		k := rng.Intn(len(tsZones))
 		return tsZones[k], tsInstant{Zone: tsZoneNames[k]}
+	case x < 89:
+		return time.FixedZone("GMT", 0), tsInstant{Zone: "GMT0"}
 	case x < 92:
 		return time.UTC, tsInstant{Zone: "UTC"}
 	case x < 96:
